@@ -77,8 +77,9 @@ func Parse(fontInfo *sfnt.Font, input string) (lookups gtab.LookupList, err erro
 }
 
 type parser struct {
-	tokens  <-chan item
-	backlog []item
+	tokens   <-chan item
+	backlog  []item
+	lastLine int // line number of the most recent item from the lexer
 
 	fontInfo *sfnt.Font
 	cmap     cmap.Subtable
@@ -1346,7 +1347,13 @@ func (p *parser) readItem() item {
 		p.backlog = p.backlog[:n]
 		return item
 	}
-	return <-p.tokens
+	next, ok := <-p.tokens
+	if !ok {
+		// The lexer has finished: we are at the end of the input.
+		return item{typ: itemEOF, line: p.lastLine}
+	}
+	p.lastLine = next.line
+	return next
 }
 
 func (p *parser) peek() item {
